@@ -107,6 +107,8 @@ def _extend_inputs(st, nz=(True, True, True)):
         if not nz[i]:
             for j in range(3):
                 st.assume(z3num(cell[i, j]) == 0)
+        else:
+            st.assume(z3.Or([z3num(cell[i, j]) != 0 for j in range(3)]))
     pbc = sym_pbc("pbc")
     cutoff = sreal("cutoff")
     st.assume(cutoff.t >= 0)
@@ -342,9 +344,15 @@ def _enum(rep):
             from engine.pyvc import PathKilled
             raise PathKilled()
 
+    def arr_hook(x):
+        if isinstance(x, list):
+            return X.SymArr("ext", x, "real")
+        return NotImplemented
+
     def mk2(st, it):
         a, k, c = mk(st, it)
         st.ghost["cxx_vector_hook"] = vec_hook
+        st.ghost["cxx_array_hook"] = arr_hook
         return a, k, c
 
     def post(st, ctx, r):
@@ -377,12 +385,13 @@ def _fill(rep):
         st = cur()
         if n == 3 and v == 0 and not st.ghost.get("copies_given"):
             st.ghost["copies_given"] = True
-            return list(st.ghost["override_copies"])
+            st.ghost["copies_list"] = list(st.ghost["override_copies"])
+            return st.ghost["copies_list"]
         return NotImplemented
 
     def mk(st, it):
-        n, cell, pbc, cutoff, pos, nums = _extend_inputs(st, (False, False, False))
-        cell = sym_cell("c")  # any cell
+        n, cell, pbc, cutoff, pos, nums = _extend_inputs(st, (True, True, True))
+        st.assume(det_term(cell) != 0)
         st.ghost["override_copies"] = [SR(z3.Int("m0")), SR(z3.Int("m1")), SR(z3.Int("m2"))]
         for t in st.ghost["override_copies"]:
             st.assume(t.t >= 0)
@@ -475,8 +484,8 @@ def _fill(rep):
 
     def post(st, ctx, r):
         n = ctx["n"]
-        nc = st.ghost["override_copies"]
-        tot = (2 * nc[0].t + 1) * (2 * nc[1].t + 1) * (2 * nc[2].t + 1)
+        nc = st.ghost["copies_list"]  # the vector n_copies_axis as the code left it
+        tot = (2 * z3num(nc[0]) + 1) * (2 * z3num(nc[1]) + 1) * (2 * z3num(nc[2]) + 1)
         st.prove("returns-ExtendedSystem", z3.BoolVal(isinstance(r, cxxrt.Struct) and r.tname == "ExtendedSystem"))
         arrs = st.ghost.get("ext_arrays", [])
         st.prove("four-output-arrays", z3.BoolVal(len(arrs) == 4))
@@ -485,6 +494,7 @@ def _fill(rep):
             st.prove("fields-in-order", z3.BoolVal(r.positions is arrs[0] and r.atomic_numbers is arrs[1] and r.indices is arrs[2] and r.factors is arrs[3]))
 
     run_fv(rep, "fill.", m, "extend_system", mk2, post,
+           contracts=NORM,
            loops={("extend_system", 7): Summarise(True), ("extend_system", 8): Summarise(False),
                   ("extend_system", 9): LoopSpec(inv_i, hav(["i", "j", "k", "a_multiplier", "b_multiplier", "c_multiplier", "addition"]), name="fill.a"),
                   ("extend_system", 10): LoopSpec(inv_j, hav(["j", "k", "b_multiplier", "c_multiplier", "addition"]), name="fill.b"),
